@@ -58,7 +58,7 @@ class C11(Prop):
             return self.skip("the probe no longer calls snapshotPath the way the library's entry points do (calibration failed)")
         for r_ in res:
             if r_[2].get("cfgsame") == "0":
-                fails.append({"msg": "snappath %s: resolving the location changed the Config (or the package defaults)" % r_[1]})
+                fails.append({"msg": "snappath %s: the memory of the Config (or of the package defaults) differs after resolving the location" % r_[1], "tie": True})
         if not (len(raws) == len(res) == len(ol)):
             return self.skip("guard")
         for raw, (_, idx, o), (n, kv) in zip(raws, res, ol):
